@@ -486,7 +486,7 @@ func TestC11_Mixed(t *testing.T) {
 			kinds[b.Kind]++
 			c.Blocks = append(c.Blocks, b)
 		}
-		c.Perm = rapid.Permutation(intRange(len(c.L) + len(c.Blocks))).Draw(t, "perm")
+		c.Perm = rapid.Permutation(intRange(len(c.L)+len(c.Blocks))).Draw(t, "perm")
 		key := ""
 		if (kinds["hat"] > 0 && kinds["profile"] > 0) || kinds["hat"] > 1 || kinds["profile"] > 1 {
 			data, _ := json.Marshal(c)
